@@ -3,7 +3,7 @@ from check import Case, exec_cases
 from gen import common as G
 
 
-def run_simple(ctx, cases, prop, chk_filter=None, signature=None, relation=None, stateful_chk=False):
+def run_simple(ctx, cases, prop, chk_filter=None, signature=None, relation=None, stateful_chk=False, verdict_filter=None):
     """chk_filter(op) -> bool: which ops get a `chk <op> | <impl obs>` line.
     signature(case, op_index, verdict, agrees) -> str."""
     impl, model = ctx.both(cases)
@@ -36,6 +36,8 @@ def run_simple(ctx, cases, prop, chk_filter=None, signature=None, relation=None,
         if verdicts is not None:
             for oi, op in enumerate(c.ops):
                 v = verdicts[ci][oi]
+                if verdict_filter is not None:
+                    v = verdict_filter(v)
                 if v not in ("holds", "na", "skip") and bad_pred is None:
                     bad_pred = (oi, v)
         if not agrees:
